@@ -61,6 +61,17 @@ def findings_table():
     return "\n".join(out)
 
 
+def summaries_block():
+    out = []
+    ids = [p["id"] for p in props] + ["E2E"]
+    for pid in ids:
+        f = ROOT / "notes" / f"summary_{pid}.md"
+        if f.exists():
+            body = " ".join(l.strip() for l in f.read_text().strip().splitlines())
+            out.append(f"* **{pid}** {body}")
+    return "\n".join(out)
+
+
 def inject(text, name, body):
     b, e = f"<!-- BEGIN GENERATED:{name} -->", f"<!-- END GENERATED:{name} -->"
     if b not in text:
@@ -74,5 +85,6 @@ t = p.read_text()
 t = inject(t, "status", status_table())
 t = inject(t, "seeded", seeded_table())
 t = inject(t, "findings", findings_table())
+t = inject(t, "summaries", summaries_block())
 p.write_text(t)
 print("DESIGN.md tables regenerated")
